@@ -197,6 +197,16 @@ func doOp(fsys ros.FS, op, p, q string) (class string, read string) {
 			f.Write([]byte("w"))
 			f.Close()
 		}
+	case "MkdirTemp":
+		// not part of the FS interface, but a method of the rooted filesystem that scripts reach through
+		// os.mkdir_temp; the directory argument may be empty ("the default place")
+		mt, ok := fsys.(interface {
+			MkdirTemp(dir, pattern string) (string, error)
+		})
+		if !ok {
+			return "unsupported", ""
+		}
+		read, err = mt.MkdirTemp(p, "t")
 	case "Mkdir":
 		err = fsys.Mkdir(p, 0o755)
 	case "MkdirAll":
@@ -285,7 +295,7 @@ func partB(r *ev.Run, n int) {
 	// build the work list
 	var cases []caseB
 	for _, base := range []string{"abs", "abs/", "abs/../base"} {
-		for _, op := range opsB {
+		for _, op := range append([]string{"MkdirTemp"}, opsB...) {
 			switch op {
 			case "Rename", "Symlink":
 				for _, p := range paths {
@@ -335,6 +345,12 @@ func partB(r *ev.Run, n int) {
 				r.Outcome("B|" + c.Op + "|" + class + "|" + ev.Clip(strings.ReplaceAll(read, t.root, "T"), 40))
 				if strings.Contains(read, marker) || strings.Contains(read, "outside.txt") {
 					r.Report("localfs-read-outside", fmt.Sprintf("localfs(base=%s).%s(%q) returned content from outside the base: %q", c.Base, c.Op, c.P, ev.Clip(read, 80)), c, read, "content from inside the base or an error")
+				}
+				if c.Op == "MkdirTemp" && class == "ok" {
+					if !within(basedir, read) {
+						r.Report("localfs-mkdirtemp-outside", fmt.Sprintf("localfs(base=%s).MkdirTemp(%q, \"t\") created %q, outside the base", c.Base, c.P, strings.ReplaceAll(read, scratch, "<scratch>")), c, read, "a directory inside the base, or an error")
+					}
+					os.RemoveAll(read)
 				}
 				if c.Op == "WalkDir" {
 					for _, v := range strings.Split(read, ",") {
